@@ -64,3 +64,44 @@ partial def runHandler (h : Handler) : IO Unit := do
   stdout.flush
 
 end Driver
+
+namespace Driver
+
+/-- splitmix64 step (same constants as harness/core.Rand) -/
+def smNext (s : UInt64) : UInt64 × UInt64 :=
+  let s := s + 0x9E3779B97F4A7C15
+  let z := s
+  let z := (z ^^^ (z >>> 30)) * 0xBF58476D1CE4E5B9
+  let z := (z ^^^ (z >>> 27)) * 0x94D049BB133111EB
+  (s, z ^^^ (z >>> 31))
+
+/-- deterministic content generator shared with the Go side (`core.GenBytes`): byte `i` is the low
+    byte of the `i`-th splitmix64 output of a state seeded with `seed*0x9E3779B97F4A7C15 + 0x1234567`;
+    when `period > 0` the content repeats with that period. -/
+def genBytes (seed : Nat) (n : Nat) (period : Nat := 0) : List UInt8 := Id.run do
+  let m := if period = 0 then n else min n period
+  let mut s : UInt64 := UInt64.ofNat seed * 0x9E3779B97F4A7C15 + 0x1234567
+  let mut base : Array UInt8 := Array.mkEmpty m
+  for _ in [0:m] do
+    let (s', z) := smNext s
+    s := s'
+    base := base.push z.toUInt8
+  if m = n then return base.toList
+  let mut out : Array UInt8 := Array.mkEmpty n
+  for i in [0:n] do
+    out := out.push base[i % m]!
+  return out.toList
+
+end Driver
+
+namespace Driver
+
+/-- data source token: `h:<hex>` | `g:<seed>:<n>` | `p:<seed>:<n>:<period>` -/
+def parseSrc (s : String) : Option (List UInt8) :=
+  match s.splitOn ":" with
+  | ["h", hx] => hexToBytes hx
+  | ["g", seed, n] => do let a ← seed.toNat?; let b ← n.toNat?; pure (genBytes a b)
+  | ["p", seed, n, per] => do let a ← seed.toNat?; let b ← n.toNat?; let c ← per.toNat?; pure (genBytes a b c)
+  | _ => none
+
+end Driver
